@@ -149,9 +149,11 @@ Section Oracles.
   Definition data_reader_view (o : gopts) (all : bytes) : res bytes :=
     match read_header hdrdec (g_maxh o) all with
     | Err e => Err e
-    | Ok (_, v, _, _) =>
+    | Ok (_, v, _, used) =>
       if v =? 1 then Ok all
       else if v =? 2 then
+        (* NewReader: the pragma must be exactly PragmaSize bytes (C13 fix) *)
+        if negb (used =? 11) then Err EOther else
         match read_v2hdr (take 40 (drop 11 all)) with
         | Err e => Err e
         | Ok (h, _) => Ok (take (h_dsize h) (drop (h_doff h) all))
